@@ -340,7 +340,7 @@ func (m *machine) run(ops []Op) []Obs {
 				}
 			}
 		case "badref":
-			names := []string{"not base64 !", base64.StdEncoding.EncodeToString([]byte("no-slash-at-all")), base64.StdEncoding.EncodeToString([]byte(""))}
+			names := []string{"not base64 !", base64.StdEncoding.EncodeToString([]byte("http://reg.test/img0:latest")), base64.StdEncoding.EncodeToString([]byte("/nohost:latest")), base64.StdEncoding.EncodeToString([]byte("a b/c"))}
 			for _, n := range names {
 				if _, st := m.rawLookup(1, n); st != fuse.EINVAL {
 					m.fail("", "root lookup of malformed name %q returned %v", n, st)
